@@ -1180,6 +1180,10 @@ class C18(Property):
         requests each aimed at one group's route and carrying credentials made for any group"""
         files, fps = ["A", "B", "C", "D"], ["fa", "fb", "fc"]
         groups = []
+        # a concurrent burst: mostly requests that DO reach their handlers (own credentials, encrypted bodies of some
+        # length), so that several handlers are held at once while the others pass the same gates
+        parallel = rng.random() < 0.35
+        p_own, p_mut, p_enc, p_anyjwt = (0.85, 0.1, 0.75, 0.05) if parallel else (0.4, 0.3, 0.3, 0.35)
         for gi in range(rng.randint(2, 5)):
             kind = rng.choice(["sig", "sig", "sig", "jwt", "jwt", "both", "both", "pub", "sig_ns"])
             g = {"jwt": None, "sig": None, "routes": [], "opts": []}
@@ -1219,15 +1223,17 @@ class C18(Property):
         for _ in range(rng.randint(3, 8)):
             ti = rng.randrange(len(groups))
             tgt = groups[ti]
-            di = ti if rng.random() < 0.4 else rng.randrange(len(groups))
+            di = ti if rng.random() < p_own else rng.randrange(len(groups))
             donor = groups[di]
             m, pth = rng.choice(tgt["routes"])
             # a route registered twice belongs to the group that registered it first (the second AddRoutes fails)
             ti = min(i for i, g in enumerate(groups) if [m, pth] in g["routes"])
             tgt = groups[ti]
             r = self._cs_req(rng, False)
-            r.update({"method": m, "path": pth, "toff": 0, "enc": rng.random() < 0.3})
-            if m in ("GET", "DELETE") and rng.random() < 0.6:
+            r.update({"method": m, "path": pth, "toff": 0, "enc": rng.random() < p_enc})
+            if parallel and len(r["body"]) < 9:
+                r["body"] = "".join(rng.choice("abcdefghij0123456789") for _ in range(rng.choice([9, 16, 33, 100])))
+            if m in ("GET", "DELETE") and rng.random() < 0.6 and not parallel:
                 r["body"], r["enc"] = "", False
             tol = (tgt["sig"] or {"tol": 5})["tol"]
             if donor["sig"] and donor["sig"]["keys"]:
@@ -1244,7 +1250,7 @@ class C18(Property):
                 if rng.random() < 0.6:
                     r["hdr"] = "missing"
                     r["enc"] = False
-            if rng.random() < 0.3:
+            if rng.random() < p_mut:
                 tmp = {"req": r, "tol": tol}
                 self._apply(rng, tmp, rng.choice(self.SRV_MUTS))
             if rng.random() < 0.1:
@@ -1256,7 +1262,7 @@ class C18(Property):
                 sec, prev = donor["jwt"]["secret"], donor["jwt"]["prev"]
                 for _ in range(100):
                     j = self._jreq(rng, sec, prev, now)
-                    if rng.random() < 0.35 or j["cls"] in self.JWT_OK_CLS + ("prev", "expired_prev"):
+                    if rng.random() < p_anyjwt or j["cls"] in self.JWT_OK_CLS + (("prev",) if parallel else ("prev", "expired_prev")):
                         break
             elif rng.random() < 0.4:
                 j = self._jreq(rng, rng.choice(self.SRV_SECRETS), "", now)
@@ -1300,7 +1306,6 @@ class C18(Property):
                 x["hb"] = rng.choice(["partial", "twice", "late"])
             if rng.random() < 0.2:
                 x["rstatus"] = rng.choice([201, 202, 204, 304, 404, 500])
-        parallel = rng.random() < 0.35
         if parallel:
             for x in reqs:
                 if x["j"] is not None:
